@@ -94,6 +94,38 @@ def canon_dict(d):
             tuple(sorted((k, b"".join(v.iter_bytes())) for k, v in d["details"].items())))
 
 
+def x_two_runs(ctx, case):
+    """Two runs on the SAME consumer objects: what the second run reports depends only on the
+    second run's events."""
+    import testtools
+    runs = [case["events"], case["events2"]]
+    got = []
+    s = testtools.StreamToDict(lambda d: got.append(canon_dict(d)))
+    ss = testtools.StreamSummary()
+    per_run = []
+    for events in runs:
+        del got[:]
+        s.startTestRun()
+        ss.startTestRun()
+        for e in events:
+            s.status(**ev_kwargs(e))
+            ss.status(**ev_kwargs(e))
+        n_fin = len(got)
+        s.stopTestRun()
+        ss.stopTestRun()
+        fin, rest = model(events)
+        ctx.check(got[:n_fin] == [canon_model(r) for r in fin] and
+                  sorted(map(repr, got[n_fin:])) == sorted(repr(canon_model(r)) for r in rest),
+                  "dict.finals-in-order", lambda: {"two-runs": True, "got": list(got), "events": events})
+        counted = [r for r in fin + rest if r["status"] != "exists"]
+        bad = [r for r in counted if r["status"] in ("fail", "inprogress", "unknown")]
+        ctx.check(ss.testsRun == len(counted) and len(ss.errors) == len(bad)
+                  and ss.wasSuccessful() == (not bad), "summary.testsRun",
+                  lambda: {"two-runs": True, "testsRun": ss.testsRun, "want": len(counted),
+                           "errors": len(ss.errors), "events": events})
+    return True
+
+
 def x_seq(ctx, case):
     import testtools
     events = case["events"]
@@ -195,7 +227,7 @@ def x_seq(ctx, case):
     return any(e.get("id") is not None for e in events)
 
 
-SUBCHECKS = {"seq": x_seq}
+SUBCHECKS = {"seq": x_seq, "two_runs": x_two_runs}
 
 
 def alphabet():
@@ -249,4 +281,8 @@ def run(ctx):
     for i in range(ctx.scale(6000, 400000)):
         if ctx.out_of_time():
             break
-        ctx.execute("seq", {"events": [random_event(rng) for _ in range(rng.randint(0, 30))]})
+        if rng.random() < 0.15:
+            ctx.execute("two_runs", {"events": [random_event(rng) for _ in range(rng.randint(0, 12))],
+                                     "events2": [random_event(rng) for _ in range(rng.randint(0, 12))]})
+        else:
+            ctx.execute("seq", {"events": [random_event(rng) for _ in range(rng.randint(0, 30))]})
